@@ -4,7 +4,7 @@ import pandas as pd
 
 from .. import gen
 from ..engine import Result
-from .common import F, G, base_sample, cfg_simplifications, observe, rows, weather_at
+from .common import ConfiguredCrop, F, G, base_sample, cfg_simplifications, observe, rows, weather_at
 
 ID = "C06"
 RULE = ("Hypothesis-generated configurations: every irrigation strategy (net irrigation with dry starts -> pre-irrigation, binding "
@@ -14,7 +14,7 @@ RULE = ("Hypothesis-generated configurations: every irrigation strategy (net irr
         "> 0, or a crop that died; distinct = configuration hash.")
 ASSUMPTIONS = [
     "a run whose initial profile lies above saturation or below air-dry in some compartment (possible when depth points of one layer are extended into a layer with other hydraulic properties) is outside the domain of valid configurations: counted under the label start_outside_airdry_saturation, not evaluated",
-    "WP, WPy, fCO2, YldWC, crop type are read from the model's per-season crop object; ET0 from the harness's own weather copy",
+    "WP, WPy and the dry-matter content are the CONFIGURED values (override or catalogue); the CO2 factor fCO2 and the crop type are read from the model's per-season crop object (fCO2's own properties are C17's subject); ET0 from the harness's own weather copy",
     "biomass gain is compared exactly (1e-9 relative) when WPy = 100 (or the crop is a leafy crop) and bounded by [WPy/100, 1] x WP*fCO2*Tr/ET0 otherwise",
     "harvest event of a season = first in-season day on which the state reports maturity or death, or whose next date is the model's latest harvest date",
     "fresh yield is compared only for crops with a defined (positive) dry-matter content",
@@ -58,6 +58,7 @@ def evaluate(cfg):
     res.evals = int(n)
     events = {}
     died = False
+    CC = ConfiguredCrop(cfg)
     for k in sorted(set(season[ins].tolist())):
         if k < 0 or k >= len(crops):
             res.fail("season_index", "in-season rows with season counter %d" % k)
@@ -69,8 +70,8 @@ def evaluate(cfg):
         hi, hia = g[:, G["harvest_index"]], g[:, G["harvest_index_adj"]]
         # ---- biomass gain ------------------------------------------------------------------------
         gain = np.diff(np.concatenate([[0.0], B]))
-        q = float(c.WP) * float(c.fCO2) * f[:, F["Tr"]] / et0[sel]
-        wpy = float(c.WPy) / 100.0
+        q = float(CC.get("WP")) * float(c.fCO2) * f[:, F["Tr"]] / et0[sel]
+        wpy = float(CC.get("WPy")) / 100.0
         lo, hi_f = min(1.0, wpy), max(1.0, wpy)
         tol = 1e-9 * np.maximum(1.0, np.abs(B))
         if wpy == 1.0 or int(c.CropType) == 1:
@@ -80,19 +81,19 @@ def evaluate(cfg):
         if bad.any():
             j = int(np.argmax(bad))
             res.fail("biomass_gain", "s%d step %d: biomass gain %.9g vs WP*fCO2*Tr/ET0 = %.9g (WPy %.0f%%, Tr %.6g, ET0 %.6g)" % (
-                k, sel[j], gain[j], q[j], c.WPy, f[j, F["Tr"]], et0[sel][j]))
+                k, sel[j], gain[j], q[j], float(CC.get("WPy")), f[j, F["Tr"]], et0[sel][j]))
         # ---- yield identities ------------------------------------------------------------------------
         dry = g[:, G["DryYield"]]
         want = (B / 100.0) * hia
         if (np.abs(dry - want) > 1e-12 * np.maximum(1.0, np.abs(want))).any():
             j = int(np.argmax(np.abs(dry - want)))
             res.fail("dry_yield", "s%d step %d: DryYield %.12g != biomass/100 x HI_adj = %.12g" % (k, sel[j], dry[j], want[j]))
-        if float(c.YldWC) > 0:
+        if float(CC.get("YldWC")) > 0:
             fresh = g[:, G["FreshYield"]]
-            want = dry / (float(c.YldWC) / 100.0)
+            want = dry / (float(CC.get("YldWC")) / 100.0)
             if (np.abs(fresh - want) > 1e-9 * np.maximum(1.0, np.abs(want))).any():
                 j = int(np.argmax(np.abs(fresh - want)))
-                res.fail("fresh_yield", "s%d step %d: FreshYield %.12g != DryYield/(dry-matter %.4g%%) = %.12g" % (k, sel[j], fresh[j], c.YldWC, want[j]))
+                res.fail("fresh_yield", "s%d step %d: FreshYield %.12g != DryYield/(dry-matter %.4g%%) = %.12g" % (k, sel[j], fresh[j], float(CC.get("YldWC")), want[j]))
         ypot = g[:, G["YieldPot"]]
         want = (Bns / 100.0) * hi
         if (np.abs(ypot - want) > 1e-12 * np.maximum(1.0, np.abs(want))).any():
